@@ -244,6 +244,141 @@ def work(job):
     return st
 
 
+# ---------------------------------------------------------------------------
+# transactions overlapping in simulated time: one process per transaction, start offsets on a grid
+# ---------------------------------------------------------------------------
+TX_GRID_NS = 1000  # begin/write latencies inside the manager are 1 us
+
+
+class TxnProc(Entity):
+    def __init__(self, i, tm, prog, level, rec):
+        super().__init__(f"txn{i}")
+        self.i, self.tm, self.prog, self.level, self.rec = i, tm, prog, level, rec
+
+    def handle_event(self, event):
+        return self._run()
+
+    def _run(self):
+        i, rec = self.i, self.rec
+        rec["span"][i] = [rec["tick"](), None]
+        tx = yield from self.tm.begin(self.level)
+        rec["log"].append((i, "begin", None, None))
+        for j, (kd, k) in enumerate(self.prog):
+            if kd == "r":
+                v = yield from tx.read(k)
+                rec["reads"][i].append((j, k, v))
+                rec["log"].append((i, "r", k, v))
+            else:
+                val = write_val(i, j)
+                yield from tx.write(k, val)
+                rec["log"].append((i, "w", k, val))
+        ok = yield from tx.commit()
+        rec["commit"][i] = bool(ok)
+        if ok:
+            rec["commit_order"].append(i)
+        rec["log"].append((i, "commit", None, bool(ok)))
+        rec["span"][i][1] = rec["tick"]()
+        rec["finished"] += 1
+
+
+def execute_overlap(store_tag, level_name, progs, offsets):
+    store = make_engine(STORES[store_tag], lat=LAT)
+    for k, v in INIT.items():
+        store.put_sync(k, v)
+    tm = TransactionManager("tm", store=store, isolation=LEVELS[level_name])
+    counter = [0]
+
+    def tick():
+        counter[0] += 1
+        return counter[0]
+
+    rec = {"reads": [[] for _ in progs], "commit": {}, "commit_order": [], "log": [], "done": False,
+           "span": {}, "tick": tick, "finished": 0}
+    procs = [TxnProc(i, tm, p, LEVELS[level_name], rec) for i, p in enumerate(progs)]
+    sim = Simulation(entities=[store, tm] + procs)
+    for pr, off in zip(procs, offsets):
+        sim.schedule(Event(time=Instant(off), event_type="go", target=pr))
+    rec["info"] = run_guarded(sim, max_events=2000, storm=500)
+    rec["done"] = rec["finished"] == len(progs)
+    rec["final"] = {k: store.get_sync(k) for k in KEYS}
+    del rec["tick"]
+    return rec
+
+
+def lifetimes_overlap(rec):
+    sp = [v for v in rec["span"].values() if v[1] is not None]
+    return any(a[0] < b[1] and b[0] < a[1] for a, b in itertools.combinations(sp, 2))
+
+
+def work_overlap(job):
+    store_tag, level_name, prog_sets, cap_ns = job
+    t0 = time.process_time()
+    st = {"exec": 0, "steps": 0, "nontriv": 0, "outcomes": set(), "viol": {}, "samples": [], "aborts": 0,
+          "unfinished": 0, "cap_hits": 0}
+    for progs in prog_sets:
+        conf = conflicting(progs)
+        stopped = False
+        for off in range(0, cap_ns + 1, TX_GRID_NS):
+            offsets = (0, off)
+            try:
+                rec = execute_overlap(store_tag, level_name, progs, offsets)
+            except Exception as exc:
+                import traceback
+                st["exec"] += 1
+                st["viol"].setdefault(f"txn/{level_name}/crash-{type(exc).__name__}",
+                                      (f"raised {type(exc).__name__}: {exc} | "
+                                       + traceback.format_exc().splitlines()[-3].strip(),
+                                       _rep_ov(store_tag, level_name, progs, offsets)))
+                continue
+            st["exec"] += 1
+            st["steps"] += len(rec["log"])
+            if not rec["done"]:
+                st["unfinished"] += 1
+            ov = lifetimes_overlap(rec)
+            if conf and ov:
+                st["nontriv"] += 1
+            st["aborts"] += sum(1 for v in rec["commit"].values() if not v)
+            st["outcomes"].add(digest((sorted(rec["commit"].items()),
+                                       [[(k, v) for _j, k, v in r] for r in rec["reads"]],
+                                       sorted(rec["final"].items()))))
+            if level_name != "READ_COMMITTED":
+                for fp, desc in oracle(level_name, progs, rec):
+                    if fp not in st["viol"]:
+                        st["viol"][fp] = (desc + f"  [log: {rec['log']}]",
+                                          _rep_ov(store_tag, level_name, progs, offsets))
+            if not st["samples"] and st["exec"] % 2003 == 11:
+                st["samples"].append({"store": store_tag, "level": level_name, "programs": progs,
+                                      "offsets_ns": offsets, "log": rec["log"], "final": rec["final"]})
+            if not ov:
+                stopped = True
+                break
+        if not stopped:
+            st["cap_hits"] += 1
+    st["wall"] = time.process_time() - t0
+    return st
+
+
+def _rep_ov(store_tag, level_name, progs, offsets):
+    return {"driver": "txn-overlap", "store": store_tag, "level": level_name, "programs": progs,
+            "offsets_ns": offsets}
+
+
+def replay_txn_overlap(rep):
+    progs = _thaw(rep["programs"])
+    offsets = tuple(rep["offsets_ns"])
+    print(f"store={rep['store']} level={rep['level']} initial={INIT}")
+    for i, (p, o) in enumerate(zip(progs, offsets)):
+        print(f"  T{i} (own process, starts at {o} ns): begin; {p}; commit")
+    rec = execute_overlap(rep["store"], rep["level"], progs, offsets)
+    for (i, kd, k, v) in rec["log"]:
+        print(f"    T{i} {kd} {k if k else ''} -> {v!r}")
+    print(f"  commit results {rec['commit']} commit order {rec['commit_order']} final {rec['final']}")
+    v = oracle(rep["level"], progs, rec)
+    for fp, desc in v:
+        print(f"  !! {fp}: {desc}")
+    return 1 if v else 0
+
+
 def _rep(store_tag, level_name, progs, order):
     return {"driver": "txn", "store": store_tag, "level": level_name, "programs": progs, "order": order}
 
